@@ -290,7 +290,7 @@ func VerifC15RoundDigits() {
 // has no SMT counterpart: outside, see DESIGN.md 8.8.)
 //
 //verif:property C15
-//verif:havoc int:text
+//verif:havoc strconv.FormatFloat:shortest
 //verif:expect called
 func VerifC15SpecialText() {
 	f := verifFloat64("f")
@@ -318,6 +318,79 @@ func VerifC15SpecialText() {
 	default:
 		verifAssert(s == "0.0", "zero is spelled 0.0")
 	}
+}
+
+// the text of a finite non-zero float: Python lays the shortest decimal that
+// converts back (d0.d1d2... * 10^X, strconv's job: abstract here, DESIGN.md 8.8)
+// out as follows: with X < -4 or X >= 16 in exponent form d0[.d1...]e+XX (sign
+// always, two exponent digits at least); otherwise in positional form, with
+// ".0" added when no fraction digits remain. Decided: gpython's text is exactly
+// that layout of the same digits, for every digit count 1..17 and every
+// exponent -324..308, either sign, str and repr alike.
+//
+//verif:property C15
+//verif:havoc strconv.FormatFloat:shortest
+//verif:maxpaths 40000 200000
+//verif:timeout 400 1500
+//verif:expect called
+func VerifC15FloatText() {
+	f := verifFloat64("f")
+	verifAssume(!math.IsNaN(f) && !math.IsInf(f, 0) && f != 0)
+	neg, digits, x := verifShortest(f)
+	var got Object
+	var err error
+	if verifChoice("how", 2) == 0 {
+		got, err = Str(Float(f))
+	} else {
+		got, err = Repr(Float(f))
+	}
+	verifReach("called")
+	verifAssert(err == nil, "no error")
+	s, ok := got.(String)
+	verifAssert(ok, "the text of a float is a string")
+	want := ""
+	if neg {
+		want = "-"
+	}
+	n := len(digits)
+	switch {
+	case x < -4 || x >= 16:
+		want += digits[:1]
+		if n > 1 {
+			want += "." + digits[1:]
+		}
+		ax := x
+		if x < 0 {
+			want += "e-"
+			ax = -x
+		} else {
+			want += "e+"
+		}
+		if ax >= 100 {
+			want += string([]byte{byte('0' + ax/100)})
+		}
+		want += string([]byte{byte('0' + ax/10%10), byte('0' + ax%10)})
+	case x < 0:
+		want += "0."
+		for i := 0; i < -x-1; i++ {
+			want += "0"
+		}
+		want += digits
+	default:
+		for i := 0; i <= x; i++ {
+			if i < n {
+				want += digits[i : i+1]
+			} else {
+				want += "0"
+			}
+		}
+		if n > x+1 {
+			want += "." + digits[x+1:]
+		} else {
+			want += ".0"
+		}
+	}
+	verifAssert(string(s) == want, "the text of a finite float is Python's layout of its shortest round-trip digits")
 }
 
 //verif:property C15
